@@ -317,6 +317,39 @@ fn libtw2_zlib_compress(d: &[u8]) -> Vec<u8> {
 // ---------------------------------------------------------------------------
 // semi-structured map layout (map/src/format.rs): version, info, image, group, layer items
 
+/// A 12-byte name field (11 bytes + NUL) as three ints: each byte is stored biased by 128, big-endian.
+fn name_ints(r: &mut Prng) -> [i32; 3] {
+    let n = match r.below(4) {
+        0 => 0,
+        1 => 11,
+        _ => r.usize_below(12),
+    };
+    let other_scripts = r.chance(1, 3);
+    let mut b = [0u8; 12];
+    for x in b[..n].iter_mut() {
+        // names are bytes: ASCII, or anything non-NUL (UTF-8 of other scripts, Latin-1)
+        *x = if other_scripts && r.chance(1, 2) { *r.pick(&[0xc3u8, 0xbc, 0xe4, 0xb8, 0xad, 0xf0, 0x9f, 0x98, 0x80, 0xff, 0x7f]) } else { 0x20 + r.below(0x5f) as u8 };
+    }
+    let mut out = [0i32; 3];
+    for k in 0..3 {
+        out[k] = i32::from_be_bytes([b[4 * k].wrapping_add(0x80), b[4 * k + 1].wrapping_add(0x80), b[4 * k + 2].wrapping_add(0x80), b[4 * k + 3].wrapping_add(0x80)]);
+    }
+    out
+}
+
+/// harness-own decoding of such a field, as the reader hands it out (last byte forced to NUL)
+fn name_bytes(ints: &[i32]) -> [u8; 12] {
+    let mut b = [0u8; 12];
+    for k in 0..3 {
+        let be = ints[k].to_be_bytes();
+        for j in 0..4 {
+            b[4 * k + j] = be[j].wrapping_sub(0x80);
+        }
+    }
+    b[11] = 0;
+    b
+}
+
 fn map_model(cfg: &DfCfg, r: &mut Prng) -> Model {
     let mut items = Vec::new();
     let mut data: Vec<Vec<u8>> = Vec::new();
@@ -348,13 +381,15 @@ fn map_model(cfg: &DfCfg, r: &mut Prng) -> Model {
         let mut extra_in_game_group = 0i32;
         let n_layers = 1 + r.usize_below(2);
         // group v3: version, offset_x, offset_y, parallax_x, parallax_y, start_layer, num_layers, use_clipping, clip x,y,w,h, name[3]
-        groups.push(MItem { type_id: 4, id: gk as u16, data: vec![3, 0, 0, 100, 100, layer_no as i32, n_layers as i32, 0, 0, 0, 0, 0, -2139062144, -2139062144, -2139062144] });
+        let nm = name_ints(r);
+        groups.push(MItem { type_id: 4, id: gk as u16, data: vec![3, 0, 0, 100, 100, layer_no as i32, n_layers as i32, 0, 0, 0, 0, 0, nm[0], nm[1], nm[2]] });
         for lk in 0..n_layers {
             let (w, h) = (r.range(1, 6) as i32, r.range(1, 6) as i32);
             let tiles = add_data(r.bytes((w * h * 4) as usize));
             let game = gk == 0 && lk == 0;
             // layer header: version, type(2 = tilemap), flags; tilemap v3: version, width, height, flags(game=1), color rgba, color_env, color_env_offset, image, data, name[3]
-            let d = vec![0, 2, 0, 3, w, h, game as i32, 255, 255, 255, 255, -1, 0, -1, tiles, -2139062144, -2139062144, -2139062144];
+            let nm = name_ints(r);
+            let d = vec![0, 2, 0, 3, w, h, game as i32, 255, 255, 255, 255, -1, 0, -1, tiles, nm[0], nm[1], nm[2]];
             layers.push(MItem { type_id: 5, id: layer_no as u16, data: d });
             layer_no += 1;
             if game {
@@ -366,7 +401,8 @@ fn map_model(cfg: &DfCfg, r: &mut Prng) -> Model {
                     }
                     let zeroes = add_data(vec![0u8; (w * h * 4) as usize]);
                     let special = add_data(r.bytes((w * h) as usize * tile_size));
-                    let mut d = vec![0, 2, 0, 3, w, h, *flag, 255, 255, 255, 255, -1, 0, -1, zeroes, -2139062144, -2139062144, -2139062144, -1, -1, -1, -1, -1];
+                    let nm = name_ints(r);
+                    let mut d = vec![0, 2, 0, 3, w, h, *flag, 255, 255, 255, 255, -1, 0, -1, zeroes, nm[0], nm[1], nm[2], -1, -1, -1, -1, -1];
                     // extra fields after the name: tele, speedup, front, switch, tune
                     let pos = 18 + match k { 0 => 0, 1 => 1, 2 => 3, 3 => 4, _ => 2 };
                     d[pos] = special;
@@ -386,15 +422,19 @@ fn map_model(cfg: &DfCfg, r: &mut Prng) -> Model {
             let legacy = r.chance(1, 3);
             let n_sources = r.range(0, 3) as i32;
             let sources = add_data(r.bytes(n_sources as usize * 52));
-            groups.push(MItem { type_id: 4, id: (2 * n_groups + gk) as u16, data: vec![3, 0, 0, 100, 100, layer_no as i32, 1, 0, 0, 0, 0, 0, -2139062144, -2139062144, -2139062144] });
-            layers.push(MItem { type_id: 5, id: layer_no as u16, data: vec![0, if legacy { 9 } else { 10 }, 0, if legacy { 1 } else { 2 }, n_sources, sources, -1, -2139062144, -2139062144, -2139062144] });
+            let nm = name_ints(r);
+            groups.push(MItem { type_id: 4, id: (2 * n_groups + gk) as u16, data: vec![3, 0, 0, 100, 100, layer_no as i32, 1, 0, 0, 0, 0, 0, nm[0], nm[1], nm[2]] });
+            let nm = name_ints(r);
+            layers.push(MItem { type_id: 5, id: layer_no as u16, data: vec![0, if legacy { 9 } else { 10 }, 0, if legacy { 1 } else { 2 }, n_sources, sources, -1, nm[0], nm[1], nm[2]] });
             layer_no += 1;
         }
         if r.chance(1, 3) {
             // a quads layer in its own group
             let quads = add_data(r.bytes(152 * 2));
-            groups.push(MItem { type_id: 4, id: (n_groups + gk) as u16, data: vec![3, 0, 0, 100, 100, layer_no as i32, 1, 0, 0, 0, 0, 0, -2139062144, -2139062144, -2139062144] });
-            layers.push(MItem { type_id: 5, id: layer_no as u16, data: vec![0, 3, 0, 2, 2, quads, -1, -2139062144, -2139062144, -2139062144] });
+            let nm = name_ints(r);
+            groups.push(MItem { type_id: 4, id: (n_groups + gk) as u16, data: vec![3, 0, 0, 100, 100, layer_no as i32, 1, 0, 0, 0, 0, 0, nm[0], nm[1], nm[2]] });
+            let nm = name_ints(r);
+            layers.push(MItem { type_id: 5, id: layer_no as u16, data: vec![0, 3, 0, 2, 2, quads, -1, nm[0], nm[1], nm[2]] });
             layer_no += 1;
         }
     }
@@ -715,6 +755,7 @@ impl DfEngine {
                     Ok(g) => {
                         n += 1;
                         seen.groups_ok += 1;
+                        seen.names.push(g.name);
                         for li in g.layer_indices.clone() {
                             match m.layer(li) {
                                 Ok(l) => {
@@ -722,12 +763,14 @@ impl DfEngine {
                                     seen.layers_ok += 1;
                                     match l.t {
                                         libtw2_map::reader::LayerType::Quads(q) => {
+                                            seen.names.push(q.name);
                                             let _ = m.reader.read_data(q.data);
                                             n += 1;
                                             seen.kinds[0] += 1;
                                         }
                                         libtw2_map::reader::LayerType::Tilemap(t) => {
                                             seen.kinds[1] += 1;
+                                            seen.names.push(t.name);
                                             let _ = t.type_.tiles();
                                             if let Some(normal) = t.type_.to_normal() {
                                                 let idx = t.tiles(normal.data);
@@ -752,6 +795,7 @@ impl DfEngine {
                                         }
                                         libtw2_map::reader::LayerType::DdraceSounds(sl) => {
                                             seen.kinds[2] += 1;
+                                            seen.names.push(sl.name);
                                             let _ = m.reader.read_data(sl.data);
                                         }
                                     }
@@ -781,6 +825,8 @@ struct MapSeen {
     tiles: Vec<(usize, Vec<u8>)>,
     /// (tile-layer flag, tiles readable) of the special game layers
     special: Vec<(i32, bool)>,
+    /// the name of every group and layer parsed
+    names: Vec<[u8; 12]>,
     errors: Vec<String>,
 }
 
@@ -1121,6 +1167,12 @@ impl Engine for DfEngine {
                         want_special.sort();
                         let mut got_special: Vec<i32> = seen.special.iter().map(|s| s.0).collect();
                         got_special.sort();
+                        // names of all groups and layers, as multisets (harness-own decoding of the stored ints)
+                        let mut want_names: Vec<[u8; 12]> = m.items.iter().filter(|i| i.type_id == 4).map(|g| name_bytes(&g.data[12..15])).collect();
+                        want_names.extend(layers.iter().map(|l| match l.data[1] { 2 => name_bytes(&l.data[15..18]), _ => name_bytes(&l.data[7..10]) }));
+                        want_names.sort();
+                        let mut got_names = seen.names.clone();
+                        got_names.sort();
                         let problem = if let Some(e) = seen.errors.first() {
                             Some(format!("{} ({} problems)", e, seen.errors.len()))
                         } else if seen.groups_ok != want_groups || seen.layers_ok != layers.len() {
@@ -1129,6 +1181,9 @@ impl Engine for DfEngine {
                             Some(format!("layer kinds (quads, tilemap, sounds) read {:?}, stored {:?}", seen.kinds, want_kinds))
                         } else if got_special != want_special || seen.special.iter().any(|s| !s.1) {
                             Some(format!("special game layers read {:?}, stored {:?}", seen.special, want_special))
+                        } else if got_names != want_names {
+                            let i = got_names.iter().zip(want_names.iter()).position(|(a, b)| a != b).unwrap_or(0);
+                            Some(format!("group / layer names read {:?}.., stored {:?}.. ({} / {} names)", got_names.get(i), want_names.get(i), got_names.len(), want_names.len()))
                         } else {
                             seen.tiles.iter().find(|(di, flat)| m.data.get(*di).map(|d| d != flat).unwrap_or(true)).map(|(di, flat)| format!("tiles of data block {}: {} bytes read, {:?} stored, or contents differ", di, flat.len(), m.data.get(*di).map(|d| d.len())))
                         };
